@@ -89,6 +89,40 @@ CORPUS = [
     # --- C11 / C19
     ("C11", "violation", "Close unregisters by address again (the defect fixed in ac14807)", "sess.go",
      "\t\ts.l.unregisterSession(s)", "\t\ts.l.closeSession(s.remote)"),
+    ("C01", "violation", "Read: new left-over is the head instead of the tail of the staged message", "sess.go",
+     "s.bufptr = s.recvbuf[n:] // pointer update", "s.bufptr = s.recvbuf[:n] // pointer update"),
+    ("C01", "violation", "Read: left-over served but not consumed", "sess.go",
+     "\t\t\ts.bufptr = s.bufptr[n:]\n\t\t\ts.mu.Unlock()", "\t\t\ts.mu.Unlock()"),
+    ("C01", "violation", "Send (stream): a full chunk appended to the last segment loses its last byte", "kcp.go",
+     "seg.data = seg.data[:oldlen+extend]", "seg.data = seg.data[:oldlen+extend-extend/1400]"),
+    ("C01", "violation", "Input: payload handed to parse_data one byte short for large segments", "kcp.go",
+     "data: data[:length], // delayed", "data: data[:length:length][:length-length/1400], // delayed"),
+    ("C01", "pass", "Read: left-over copy through a temporary", "sess.go",
+     "\t\t\tn = copy(b, s.bufptr)\n\t\t\ts.bufptr = s.bufptr[n:]", "\t\t\trest := s.bufptr\n\t\t\tn = copy(b, rest)\n\t\t\ts.bufptr = rest[n:]"),
+    ("C01", "pass", "Send: size computed with an if instead of min", "kcp.go",
+     "\t\tsize = min(len(buffer), int(kcp.mss))", "\t\tsize = len(buffer)\n\t\tif size > int(kcp.mss) {\n\t\t\tsize = int(kcp.mss)\n\t\t}"),
+    # --- C09
+    ("C09", "violation", "flush: retransmitted segments keep their old una", "kcp.go",
+     "\t\t\t\tsegment.una = seg.una\n", ""),
+    ("C09", "violation", "Input: sn and una offsets swapped", "kcp.go",
+     "\t\tsn := binary.LittleEndian.Uint32(data[12:])\n\t\tuna := binary.LittleEndian.Uint32(data[16:])",
+     "\t\tsn := binary.LittleEndian.Uint32(data[16:])\n\t\tuna := binary.LittleEndian.Uint32(data[12:])"),
+    # --- C18
+    ("C18", "violation", "flush: fast-resend threshold 0 when disabled", "kcp.go",
+     "\t\tresent = 0xffffffff\n", "\t\tresent = 0\n"),
+    ("C18", "pass", "flush: disabled marker computed in one expression", "kcp.go",
+     "\tresent := uint32(kcp.fastresend)\n\tif kcp.fastresend <= 0 {\n\t\tresent = 0xffffffff\n\t}",
+     "\tresent := uint32(0xffffffff)\n\tif kcp.fastresend > 0 {\n\t\tresent = uint32(kcp.fastresend)\n\t}"),
+    # --- C15 (callback half)
+    ("C15", "violation", "update: re-arms itself whether or not the session is closed", "sess.go",
+     "\tselect {\n\tcase <-s.die:\n\tdefault:\n\t\ts.mu.Lock()\n\t\tinterval := s.kcp.flush(IKCP_FLUSH_FULL)",
+     "\tselect {\n\tcase <-s.die:\n\t\tSystemTimedSched.Put(s.update, time.Now().Add(time.Second))\n\tdefault:\n\t\ts.mu.Lock()\n\t\tinterval := s.kcp.flush(IKCP_FLUSH_FULL)"),
+    ("C15", "pass", "update: closed test through isClosed()", "sess.go",
+     "\tselect {\n\tcase <-s.die:\n\tdefault:\n\t\ts.mu.Lock()\n\t\tinterval := s.kcp.flush(IKCP_FLUSH_FULL)",
+     "\tif s.isClosed() {\n\t\treturn\n\t}\n\t{\n\t\ts.mu.Lock()\n\t\tinterval := s.kcp.flush(IKCP_FLUSH_FULL)"),
+    # --- C14 (atomic-only counters)
+    ("C14", "violation", "Input: InSegs bumped with a plain +=", "kcp.go",
+     "\tatomic.AddUint64(&DefaultSnmp.InSegs, inSegs)", "\tDefaultSnmp.InSegs += inSegs"),
     # --- C20
     ("C20", "violation", "RingBuffer.Pop does not clear the vacated slot", "ringbuffer.go", None, None),
 ]
